@@ -89,6 +89,9 @@ func RunSchedule(w *World, s *Schedule) {
 	w.Quiesce()
 	for i := range s.Steps {
 		w.RunStep(i, &s.Steps[i])
+		if w.Cfg.Retransmit {
+			time.Sleep(12 * time.Millisecond) // several retransmission intervals pass between two environment steps
+		}
 	}
 	if w.Cfg.Retransmit {
 		time.Sleep(30 * time.Millisecond)
